@@ -1,4 +1,5 @@
 from .data_container import DataContainer, CornerDataContainer
+from .mesh_attributes import ArrayAttribute
 from ..geometry import Vec
 from .. import utils
 from .. import config
@@ -157,15 +158,18 @@ class RawMeshData:
             old_attrs = dict()
             for attr_name in self.edges.attributes:
                 old_attrs[attr_name] = self.edges.get_attribute(attr_name)
-                new_attrs[attr_name] = new_edges.create_attribute(attr_name, old_attrs[attr_name].type, old_attrs[attr_name].elemsize)
+                dflt = old_attrs[attr_name]._default_value
+                if isinstance(dflt, Vec): dflt = None # lazily materialised default of a vector attribute
+                new_attrs[attr_name] = new_edges.create_attribute(attr_name, old_attrs[attr_name].type, old_attrs[attr_name].elemsize, default_value=dflt)
             n = 0
             for ie in self.id_edges:
                 a,b = self.edges[ie]
                 if is_valid(a,b):
                     new_edges.append(utils.keyify(a,b))
                     for name in new_attrs:
-                        if ie in old_attrs[name]: # keep sparsity of the attribute
-                            new_attrs[name][n] = old_attrs[name][ie]
+                        old = old_attrs[name]
+                        if isinstance(old, ArrayAttribute) or ie in old: # keep sparsity of a sparse attribute
+                            new_attrs[name][n] = old[ie]
                     n+=1
             self.edges = new_edges
         else:
